@@ -1,6 +1,7 @@
 package symex
 
 import (
+	"strconv"
 	"fmt"
 	"go/types"
 	"strings"
@@ -65,6 +66,7 @@ func registerIntrinsics(ex *Executor) {
 	I["@nondetInt64"] = nd("int", smt.Int)
 	I["@nondetBool"] = nd("bool", smt.Bool)
 	I["@nondetString"] = nd("string", smt.String)
+	I["@nondetText"] = nd("string", smt.String)
 	I["@nondetBytes"] = func(ex *Executor, st *State, cc *CallCtx, args []Val) (Val, ctl) {
 		v := smt.Var(fmt.Sprintf("nd%d_%s", len(st.ND), "string"), smt.String)
 		st.ND = append(st.ND[:len(st.ND):len(st.ND)], NDRec{Kind: "string", T: v})
@@ -456,6 +458,18 @@ func registerIntrinsics(ex *Executor) {
 		if s, ok := args[1].(SliceV); ok {
 			va = ex.sliceElems(st, s)
 		}
+		if ft, ok := args[0].(*smt.Term); ok && !ft.IsConst() {
+			// a format string that is data: the result is some function of it (verbs in it are interpreted), not the text itself
+			acc := smt.App("sprintf_fmt", smt.String, ft)
+			for _, a := range va {
+				if iv, ok := a.(IfaceV); ok {
+					if t, ok := iv.V.(*smt.Term); ok && t.Sort == smt.String {
+						acc = smt.App("enc2", smt.String, acc, t)
+					}
+				}
+			}
+			return acc, cNext
+		}
 		// only string-ish %s / %d / %v / %q arguments that are scalar terms are modelled
 		var out *smt.Term = smt.StrC("")
 		ai := 0
@@ -475,12 +489,31 @@ func registerIntrinsics(ex *Executor) {
 			}
 			out = smt.Concat(out, smt.StrC(lit))
 			lit = ""
+			verb := byte('v')
+			if i < len(format) {
+				verb = format[i]
+			}
 			var at *smt.Term
 			if ai < len(va) {
 				if iv, ok := va[ai].(IfaceV); ok {
+					if b, ok := iv.V.(BytesV); ok {
+						iv.V = ex.bytesContent(st, b)
+						if verb == 'v' {
+							// %v of a byte slice prints the numbers, not the text
+							iv.V = smt.App("gosprint_bytes", smt.String, iv.V.(*smt.Term))
+						}
+					}
 					if t, ok := iv.V.(*smt.Term); ok {
 						if t.Sort == smt.String {
 							at = t
+							if verb == 'q' {
+								// Go-syntax quoting: not the text itself (and not JSON quoting either)
+								if t.IsConst() {
+									at = smt.StrC(strconv.Quote(t.S))
+								} else {
+									at = smt.App("goquote", smt.String, t)
+								}
+							}
 						} else if t.Sort == smt.Int {
 							if t.IsConst() {
 								at = smt.StrC(t.I.String())
@@ -501,6 +534,45 @@ func registerIntrinsics(ex *Executor) {
 		return out, cNext
 	}
 
+	// fmt.Sprint of one value: a string prints as itself, a byte slice as its numbers
+	I["fmt.Sprint"] = func(ex *Executor, st *State, cc *CallCtx, args []Val) (Val, ctl) {
+		var va []Val
+		if s, ok := args[0].(SliceV); ok {
+			va = ex.sliceElems(st, s)
+		}
+		if len(va) != 1 {
+			ex.abort("fmt.Sprint with %d operands is not modelled", len(va))
+		}
+		iv, _ := va[0].(IfaceV)
+		switch x := iv.V.(type) {
+		case *smt.Term:
+			if x.Sort == smt.String {
+				return x, cNext
+			}
+			if x.Sort == smt.Int {
+				return smt.App("itoa", smt.String, x), cNext
+			}
+		case BytesV:
+			return smt.App("gosprint_bytes", smt.String, ex.bytesContent(st, x)), cNext
+		case SliceV:
+			if c, ok := ex.convert(st, x, nil, types.Typ[types.String]).(*smt.Term); ok {
+				return smt.App("gosprint_bytes", smt.String, c), cNext
+			}
+		}
+		return st.fresh("sprint", smt.String), cNext
+	}
+	// strings.TrimSpace: computed on literals; on symbolic text an idempotent uninterpreted function (a string may or may not
+	// carry surrounding white space)
+	I["strings.TrimSpace"] = func(ex *Executor, st *State, cc *CallCtx, args []Val) (Val, ctl) {
+		x := args[0].(*smt.Term)
+		if x.IsConst() {
+			return smt.StrC(strings.TrimSpace(x.S)), cNext
+		}
+		t := smt.App("uf_trim", smt.String, x)
+		st.addPC(smt.Eq(smt.App("uf_trim", smt.String, t), t))
+		st.addPC(smt.Implies(smt.Eq(x, smt.StrC("")), smt.Eq(t, smt.StrC(""))))
+		return t, cNext
+	}
 	// ---- time ----
 	I["time.Now"] = func(ex *Executor, st *State, cc *CallCtx, args []Val) (Val, ctl) {
 		return ex.timeNow(st), cNext
